@@ -22,7 +22,8 @@ def run(ctx):
                      "scheduler_run_load on) on partially occupied clusters (running batches of earlier invocations, pending and "
                      "available profiles); monitors on the returned Placements: no request decided twice, every decision for an "
                      "offered request, batches name an existing pool/worker (with the model loaded and room for the strategy after "
-                     "the earlier batches of the invocation are re-played) and a strategy of the request's profile, start == now; "
+                     "the earlier batches of the invocation are re-played: joint capacity, all placements start now) and a strategy of the "
+                     "request's profile, start == now and >= the request's release; "
                      "getters of cluster and tasks identical before/after each call (compared in Coq as values)")
     dist_all = {}
     for mode, n in (("natural", 120 if quick else 3000), ("adversarial", 50 if quick else 1000), ("load", 40 if quick else 600)):
@@ -36,6 +37,7 @@ def run(ctx):
         if mode == "natural":
             ctx.sample({"stream": stream, "history": hs[0], "implementation": c15.expected(impls[0])})
         c15.getters_monitor(ctx, hs, impls, stream + ":getters")
+        c15.starts_monitor(ctx, hs, impls, stream + ":starts")
         c15.strip(hs, impls)
         try:
             c15.correspondence(ctx, hs, impls, stream)
